@@ -237,7 +237,8 @@ class Ctx:
                 print("KNOWN-FINDING: property=%s %s :: %s" % (self.prop, key, self.known[key]))
             self.known_hits[key] = self.known_hits.get(key, 0) + 1
             return False
-        if len(self.violations) >= 20:
+        seen = set(v[0] for v in self.violations)
+        if key in seen or len(seen) >= 25:
             self.violations.append((key, None, message))
             return True
         self._replay_n += 1
